@@ -71,7 +71,8 @@ Definition in_domain (e : emb) (frag : list ast) : list bool :=
   | ERename sg =>
     [avoids [pr_simple_id; pr_attr_name; pr_base_id; main_left_id] sg;
      avoids [sc_str_func] sg && nodupb (map snd sg)
-     && forallb (fun p => negb (smem (snd p) (flat_map idents frag))) sg]
+     && forallb (fun p => negb (smem (snd p) (flat_map idents frag))) sg
+     && forallb (fun p => Bool.eqb (smem (lower (fst p)) sc_doc_patterns) (smem (lower (snd p)) sc_doc_patterns)) sg]
   end.
 
 (* model outputs are computed once per file and candidate vector (the VM shares let-bound values) *)
@@ -97,6 +98,10 @@ Definition judge_embed (q : cquirks) (e : emb) (frag : list ast) (iso_cc : list 
   ++ map (fun o => same_i impl_cc (cc_msgs o)) xo
   ++ zip3 (fun o i f => same_reps o (predicted e i f)) xo iso_cc fo
   ++ in_domain e frag.
+
+(* a fragment placed in an `orelse` / `finalbody` position: its top-level statements hang under that field *)
+Definition rerole (r : string) (frag : list ast) : list ast :=
+  map (fun t => match t with Node i ks => Node (mkI r (cls i) (line i) (col i) (sval i) (ckind i)) ks end) frag.
 
 (* a file on its own *)
 Definition judge_iso (q : cquirks) (file : list ast) (impl_pr impl_cc : list irep) : list bool :=
